@@ -39,15 +39,25 @@ void h_preempt(void) {
     thread_b();                            /* if it was not scheduled inside A's call, it runs afterwards */
     V_ASSERT(count_records(&g_cfgA) == 1 && count_records(&g_cfgB) == 1, "C17: both interfaces keep exactly one record however their receive threads interleave (no lost state)");
     lltd_iface_state *a = find_state(&g_cfgA), *b = find_state(&g_cfgB);
-    if (a && b) {
-        bool ra = is_disc_tos(in.frame[F_TOS]) && in.frame[F_OP] == opcode_reset;
-        bool rb = is_disc_tos(in.frame2[F_TOS]) && in.frame2[F_OP] == opcode_reset;
+    /* reference: the same two frames handled one after the other (no pre-emption) in a second world */
+    uint8_t ka = a ? a->mapper_known : 2, kb = b ? b->mapper_known : 2;
+    uint8_t ra[6] = {0}, rb[6] = {0}; uint32_t ca = a ? a->see_list_count : 0, cb = b ? b->see_list_count : 0;
+    if (a) mac6_set(ra, a->mapper_real.a);
+    if (b) mac6_set(rb, b->mapper_real.a);
+    b_ran = 1;                              /* thread B no longer pre-empts */
+    g_iface_states = 0;
 #ifdef PRE_REGISTERED
-        V_ASSERT(a->mapper_known == (ra ? 0 : in.st.known) && b->mapper_known == (rb ? 0 : in.st2.known), "C17: each interface's mapper state is what its own frame produces alone");
-#else
-        V_ASSERT(a->mapper_known == 0 && b->mapper_known == 0, "C17: each interface's mapper state is what its own frame produces alone");
-        (void)ra; (void)rb;
+    (void)build_state(&g_cfgA, &in.st);
+    (void)build_state(&g_cfgB, &in.st2);
 #endif
+    uint8_t *rx2 = make_frame(in.frame, g_cfgA.mtu), *rxb2 = make_frame(in.frame2, g_cfgB.mtu);
+    parseFrame(rx2, &g_cfgA);
+    parseFrame(rxb2, &g_cfgB);
+    lltd_iface_state *a2 = find_state(&g_cfgA), *b2 = find_state(&g_cfgB);
+    if (a && b && a2 && b2) {
+        V_ASSERT(ka == a2->mapper_known && kb == b2->mapper_known && (!ka || mac6_eq(ra, a2->mapper_real.a)) && (!kb || mac6_eq(rb, b2->mapper_real.a)) &&
+                 ca == a2->see_list_count && cb == b2->see_list_count,
+                 "C17: each interface ends in the state its own frame produces when the two frames are handled one after the other");
     }
     V_WITNESS("h_preempt end");
 }
